@@ -7,7 +7,7 @@ from itertools import product
 import numpy as np
 import tlz as toolz
 
-from dask import is_dask_collection
+from dask import config, is_dask_collection
 from dask._task_spec import Task, TaskRef
 from dask_array._expr import ArrayExpr, unify_chunks_expr
 from dask_array._utils import compute_meta
@@ -92,9 +92,27 @@ class Blockwise(ArrayExpr):
             return meta
 
     @cached_property
+    def _unify_config(self):
+        """The chunk-unification settings this node is planned under.
+
+        ``chunks`` (what the node advertises, and what its parents plan from --
+        e.g. the depth of a tree reduction) and ``_lower`` (the layout it
+        actually becomes) each run ``unify_chunks_expr``, possibly at different
+        times. They must take the same decisions, so the settings are captured
+        once per node and applied to both."""
+        return {
+            "array.unify-chunks-policy": config.get("array.unify-chunks-policy", "auto"),
+            "array.unify-chunks-limit": config.get("array.unify-chunks-limit", None),
+        }
+
+    def _unified_args(self):
+        with config.set(self._unify_config):
+            return unify_chunks_expr(*self.args)
+
+    @cached_property
     def chunks(self):
         if self.align_arrays:
-            chunkss, arrays, _ = unify_chunks_expr(*self.args)
+            chunkss, arrays, _ = self._unified_args()
         else:
             arginds = [(a, i) for (a, i) in toolz.partition(2, self.args) if i is not None]
             chunkss = {}
@@ -494,7 +512,7 @@ class Blockwise(ArrayExpr):
 
     def _lower(self):
         if self.align_arrays:
-            _, arrays, changed = unify_chunks_expr(*self.args)
+            _, arrays, changed = self._unified_args()
             if changed:
                 args = []
                 for idx, arr in zip(self.args[1::2], arrays):
@@ -1005,7 +1023,7 @@ class Elemwise(Blockwise):
         # Elemwise stores just arrays in operands, but args generates (array, indices) pairs.
         # After unifying chunks, we only pass the unified arrays (not indices) to the constructor.
         if self.align_arrays:
-            _, arrays, changed = unify_chunks_expr(*self.args)
+            _, arrays, changed = self._unified_args()
             if changed:
                 # Only pass the unified arrays, not the indices
                 # When where is an array, the last two arrays are where and out
